@@ -118,6 +118,22 @@ pub enum CbBytes {
     #[token(b" ")] Sp,
 }
 
+// a bumping callback on a byte source: every in-range bump is valid there, up to and including the end of the input
+fn decide_bump_b<'s, T: Logos<'s, Source = [u8]>>(lex: &mut Lexer<'s, T>) -> u32 {
+    let _ = k_of_b(lex);
+    let want = lex.slice().iter().map(|b| *b as usize).sum::<usize>() % 3;
+    if want <= lex.remainder().len() { lex.bump(want); }
+    want as u32
+}
+
+#[derive(Logos, Debug, PartialEq, Clone)]
+#[logos(utf8 = false)]
+pub enum CbBumpB {
+    #[regex(b"[a-z]+", decide_bump_b)] Word(u32),
+    #[regex(b"[0-9\xff]+")] Num,
+    #[token(b" ")] Sp,
+}
+
 // callbacks whose path merely ends in `skip` (they are ordinary user callbacks, not logos::skip)
 pub mod named {
     pub mod boolish { use logos::{Lexer, Logos}; pub fn skip<'s, T: Logos<'s, Source = str>>(lex: &mut Lexer<'s, T>) -> bool { super::super::decide_bool(lex) } }
